@@ -142,7 +142,7 @@ def run_all(loop, rts, prog, max_steps=2_000_000, allow_blocked=False):
         tasks.append(ctx.run(lambda rt=rt: loop.create_task(prog(rt))))
     steps = 0
     while not all(t.done() for t in tasks):
-        if errors:
+        if errors and not (allow_blocked == 'continue'):
             break
         if not loop._ready and not loop._scheduled:
             pend = [i for i, t in enumerate(tasks) if not t.done()]
